@@ -254,7 +254,20 @@ func (b *OutboundBreaker) init(limit int64, interval time.Duration) (*OutboundBr
 	b.interval = interval
 	b.ticks = ticks
 	if fresh {
+		// A window of another shape.  What the old one has counted
+		// still happened: it goes into the newest tick of the new
+		// one, as if it had happened just now.  (That is on the
+		// safe side: nothing is forgotten early.)
+		var carried int64
+		for _, n := range b.counts {
+			carried += n
+		}
+		had := 0 < len(b.counts)
 		b.counts = make([]int64, ticks)
+		if had {
+			b.counts[0] = carried
+			b.updated = time.Now()
+		}
 	}
 	return b, nil
 }
